@@ -2,6 +2,7 @@ import Driver.JsonConv
 import BSEModel.Compose
 import BSEModel.Api
 import BSEModel.Index
+import BSEModel.Refs
 open Lean BSE BSE.Drv BSE.Compose
 
 namespace BSE.Drv.Store
@@ -26,6 +27,18 @@ def optStr (j : Json) (k : String) : Option String :=
   | _ => none
 
 def handlers : List (String × Handler) := [
+  ("compact_groups", fun j => do
+    let els ← (← getArr j "els").mapM fun p => do
+      match p with
+      | .arr #[.str z, .str info] => pure (z, info)
+      | _ => throw "element pair"
+    let gs := BSE.Refs.compactGroups els
+    pure (obj [("groups", Json.arr (gs.map fun g => Json.arr #[.str g.1, toJson g.2]).toArray)])),
+  ("process_notes", fun j => do
+    let notes ← getStr j "notes"
+    let keys ← getStrList j "keys"
+    let found := BSE.Refs.sortKeys (keys.filter fun k => BSE.Refs.isSub k.toList notes.toList)
+    pure (obj [("found", toJson found)])),
   ("create_metadata", fun j => do
     let files ← decodeFiles j
     let paths ← getStrList j "paths"
